@@ -39,16 +39,20 @@ def make_world(rng):
     positions += [Position4D(rng.choice(vals), rng.choice(vals), rng.choice(vals), rng.choice(vals)) for _ in range(rng.randrange(0, 3))]
     orients = [Orientation(rng.choice(vals), 0.0, 0.0, rng.choice([None, 1.0, 2.0])) for _ in range(3)]
     poses = [Pose(rng.choice(positions), rng.choice(orients)) for _ in range(rng.randrange(2, 5))]
-    bodies = [Body(f"b{i}") for i in range(4)]
+    # two worlds: a connection, its parent and its child may each live in a different one (paths over two relationships,
+    # connection.parent.world, must follow the PARENT's world)
+    world, world_2 = World(1), World(2)
+    bodies = [Body(f"b{i}", world=(world if i < 2 else world_2)) for i in range(4)]
+    world.bodies, world_2.bodies = bodies[:2], bodies[2:]
     conns = []
     for _ in range(rng.randrange(2, 5)):
         cls_ = rng.choice([FixedConnection, PrismaticConnection])
         p, c = rng.sample(bodies, 2)
-        conns.append(cls_(p, c))
-    world = World(1, bodies)
-    world.connections = conns
+        conns.append(cls_(p, c, world=rng.choice([world, world_2])))
+    world.connections = [c for c in conns if c.world is world]
+    world_2.connections = [c for c in conns if c.world is world_2]
     state = ToDAOState()
-    roots = positions + orients + poses + [world]
+    roots = positions + orients + poses + [world, world_2]
     daos = [to_dao(o, state=state) for o in roots]
     session.add_all(daos)
     session.commit()
@@ -96,6 +100,15 @@ def shapes():
     S["in_(body.name, ['b1'])"] = lambda o: (b := let(Body, o["Body"]), in_(b.name, ["b1"]))
     S["fixed.parent.name == b0 and fixed.child.name == b1 (two paths to one table)"] = lambda o: (f := let(FixedConnection, o["FixedConnection"]), and_(f.parent.name == "b0", f.child.name == "b1"))
     S["fixed.parent.name == b0 or fixed.child.name == b0 (two paths to one table)"] = lambda o: (f := let(FixedConnection, o["FixedConnection"]), or_(f.parent.name == "b0", f.child.name == "b0"))
+    for k_ in ("FixedConnection", "PrismaticConnection"):
+        from test.dataset import semantic_world_like_classes as _swl
+        C_ = getattr(_swl, k_)
+        for w_ in (1, 2):
+            S[f"{k_}.parent.world.id == {w_} (two relationships)"] = lambda o, C_=C_, k_=k_, w_=w_: (f := let(C_, o[k_]), f.parent.world.id == w_)
+            S[f"{k_}.child.world.id == {w_} (two relationships)"] = lambda o, C_=C_, k_=k_, w_=w_: (f := let(C_, o[k_]), f.child.world.id == w_)
+        S[f"{k_}.parent.world.id == 2 and .child.world.id == 1"] = lambda o, C_=C_, k_=k_: (f := let(C_, o[k_]), and_(f.parent.world.id == 2, f.child.world.id == 1))
+        S[f"{k_}.parent.world.id != .world.id"] = lambda o, C_=C_, k_=k_: (f := let(C_, o[k_]), f.parent.world.id != f.world.id)
+        S[f"{k_}.world.id == 1 (one relationship)"] = lambda o, C_=C_, k_=k_: (f := let(C_, o[k_]), f.world.id == 1)
     S["prismatic.parent.name != prismatic.child.name"] = lambda o: (f := let(PrismaticConnection, o["PrismaticConnection"]), f.parent.name != f.child.name)
     S["x != z and x == q.z (two variables of one type)"] = lambda o: (p := let(Position, o["Position"]), and_(p.x != p.z, p.x == let(Position, o["Position"]).z))
     S["(x==1 and y==2) or z==3"] = lambda o: (p := let(Position, o["Position"]), or_(and_(p.x == 1.0, p.y == 2.0), p.z == 3.0))
